@@ -16,7 +16,7 @@ pub const EDGES: [u32; 7] = [0, 1, 999, 1000, 999_999_000, 999_999_999, 500_000_
 // year 9999-12-31T23:59:59Z
 pub const Y9999: u64 = 253_402_300_799;
 
-fn pick_secs(rng: &mut Rng) -> u64 {
+pub fn pick_secs(rng: &mut Rng) -> u64 {
     let s = pick_secs_raw(rng);
     // one start in four sits just before a minute / hour / day rollover (a run lasts seconds,
     // so the rollover happens while requests are in flight)
